@@ -192,10 +192,7 @@ func (e *Env) walkOne(label string, c *gkvlite.Collection, m *model.Coll, free, 
 		var prio int32
 		var vlen int
 		if it := w.v.Item; it != nil && it.Val != nil {
-			key, prio, vlen = it.Key, it.Priority, len(it.Val)
-			if e.Cfg.CB&CBVal != 0 {
-				vlen = len(it.Val)
-			}
+			key, prio, vlen = it.Key, it.Priority, e.ValBytes(it.Val)
 		} else if w.v.ItemLen != 0 {
 			di, err := decoder.ItemAt(img, decoder.Loc{O: w.v.ItemOff, L: w.v.ItemLen})
 			if err != nil {
@@ -369,7 +366,11 @@ func (e *Env) ShapeCheck(name string) {
 		if d, ok := m.Depths(); ok {
 			canon = d
 			e.Stats["shape.canonical-depths-checked"] += int64(len(seq))
+		} else {
+			e.Stats["shape.tied-priority-checks"]++ // heap clause on, shape clause off
 		}
+	} else {
+		e.Stats["shape.heap-off-checks"]++
 	}
 	if s := CheckShape(seq, !m.HeapOff, canon); s != "" {
 		e.Failf("C13/visible-tree/"+classify(s), "%s", s)
